@@ -581,6 +581,49 @@ fn c01_struct_element__yt() {
     kani::cover!(is_ok && field_idx == 1, "cover.second_field");
 }
 
+// ---- contract: serialized_size ("the size reported without writing equals the number of bytes written") -----------
+// The public entry point is run for real on fixed-size basic values (size pass through NullWriteSeek + the same
+// serializer): ensures Ok(size) with size = pad(position, A) + A -- exactly what the C01.ser_* units prove is WRITTEN
+// for the same value at the same position -- and no file descriptors reported.
+macro_rules! size_unit {
+    ($name:ident, $ty:ty, $code:expr, $o_ok:literal, $o_size:literal) => {
+        #[cfg(kani)]
+        #[kani::proof]
+        #[kani::stub(alloc::fmt::format, stub_format)]
+        #[kani::unwind(3)]
+        fn $name() {
+            let big: bool = kani::any();
+            let position: usize = kani::any();
+            kani::assume(position <= MAX_POS);
+            let v: $ty = kani::any();
+            let ctxt = Context::new_dbus(if big { Endian::Big } else { Endian::Little }, position);
+            let r = crate::serialized_size(ctxt, &v);
+            let a = spec_align_of($code);
+            match &r {
+                Ok(size) => {
+                    obl!($o_ok, true);
+                    obl!($o_size, **size == spec_pad(position, a) + a && size.num_fds() == 0);
+                }
+                Err(_) => { obl!($o_ok, false); }
+            }
+            kani::cover!(spec_pad(position, a) == a - 1, "cover.max_padding");
+            core::mem::forget(r);
+        }
+    };
+}
+// @unit C01.serialized_size.u32 props=C01 kind=complete fn=zvariant::ser::serialized_size,<zvariant::ser::NullWriteSeek.as.std::io::Write>::write timeout=900
+#[cfg(not(verif_skip_c01_serialized_size_u32__complete))]
+size_unit!(c01_serialized_size_u32__complete, u32, b'u', "C01.serialized_size.u32.ok", "C01.serialized_size.u32.equals_bytes_written_incl_padding");
+// @unit C01.serialized_size.u64 props=C01 kind=complete fn=zvariant::ser::serialized_size timeout=900
+#[cfg(not(verif_skip_c01_serialized_size_u64__complete))]
+size_unit!(c01_serialized_size_u64__complete, u64, b't', "C01.serialized_size.u64.ok", "C01.serialized_size.u64.equals_bytes_written_incl_padding");
+// @unit C01.serialized_size.bool props=C01 kind=complete fn=zvariant::ser::serialized_size timeout=900
+#[cfg(not(verif_skip_c01_serialized_size_bool__complete))]
+size_unit!(c01_serialized_size_bool__complete, bool, b'b', "C01.serialized_size.bool.ok", "C01.serialized_size.bool.equals_bytes_written_incl_padding");
+// @unit C01.serialized_size.u8 props=C01 kind=complete fn=zvariant::ser::serialized_size timeout=900
+#[cfg(not(verif_skip_c01_serialized_size_u8__complete))]
+size_unit!(c01_serialized_size_u8__complete, u8, b'y', "C01.serialized_size.u8.ok", "C01.serialized_size.u8.equals_bytes_written_incl_padding");
+
 // =================================================================================================================
 // C02: encode -> decode returns the original value, and the decoder consumes exactly the bytes written.
 // Composed units: the REAL per-type serializer method writes into a window at an arbitrary message position and
